@@ -39,21 +39,10 @@ class ConcreteEngine:
 
     # strings: atoms of the model are turned back into real strings
     def register_literals(self, lits):
-        import re
-        int_re = re.compile(r'^-?(0|[1-9][0-9]*)$')
-        flt_re = re.compile(r'^-?(0|[1-9][0-9]*)\.0$')
-        s = set(getattr(self, '_lits', []))
-        for x in lits:
-            if not int_re.match(x) and not (flt_re.match(x) and x != '-0.0'):
-                s.add(x)
-        self._lits = sorted(s)
-        self._atom_lit = {(i + 1) * 2 ** 20: x for i, x in enumerate(self._lits)}
+        pass
 
     def fresh_str(self, name):
         a = self.model.get(self._name(name), 0)
-        lit = getattr(self, '_atom_lit', {}).get(a)
-        if lit is not None:
-            return lit
         for arg, res in self.model.get('fn:S', []):
             if res == a:
                 return repr(arg)
